@@ -4,7 +4,7 @@
    g_fixed cfg = false is the pinned snapshot, kept for the refutation witnesses. *)
 From Coq Require Import NArith List Bool.
 From ZV.Codec Require Import Bytes Block.
-From ZV.Seq Require Import SeqApi SeqSpec SeqProofs SeqTranscribe SeqMinLen SeqExec SeqProducer.
+From ZV.Seq Require Import SeqApi SeqSpec SeqProofs SeqTranscribe SeqMinLen SeqExec SeqProducer SeqProducerFrame.
 Import ListNotations.
 Local Open Scope N_scope.
 
@@ -234,3 +234,96 @@ Theorem C17_compress_sequences_round_trip : forall cfg0 dcfg d p dictID x S rep 
   exists t, decode_frame dcfg d (enc_frame p dictID ebs ++ rest) = Ok (x, t, rest).
 Proof. exact compress_sequences_round_trip. Qed.
 Print Assumptions C17_compress_sequences_round_trip.
+
+(* ================= round 2 ================= *)
+(* ---- a whole frame compressed through a registered producer (coq/Seq/SeqProducerFrame.v) ----
+   producer_frame atpos: one producer call per block, each handed to ZSTD_copySequencesToSeqStoreExplicitBlockDelim;
+   atpos = false: the code as it is (ZSTD_buildSeqStore restarts ZSTD_sequencePosition at {0,0,0} in every block),
+   atpos = true: the copier is given the position of the block in the frame. *)
+
+(* one block at position pos: the codes decode to the raw offsets, the lengths fill the block, and with validation on every
+   stored sequence obeys the documented rule AT THE FRAME POSITION pos (C17_producer_store_sound is the instance pos = 0) *)
+Theorem C17_producer_block_at_store_sound : forall cfg ers fallback buf nb capacity srcSize rep pos br,
+  producer_block_at cfg ers fallback buf nb capacity srcSize rep pos = PRstore br ->
+  (forall seqs, post_process buf nb capacity srcSize = PPok seqs -> Forall off_ok seqs) -> rep_ok rep ->
+  decode_offsets rep (r_seqs br) = Ok (map t_raw (r_seqs br), r_rep br) /\ rep_ok (r_rep br) /\
+  stored_sum32 (r_seqs br) + r_lastLL br = srcSize /\
+  (g_fixed cfg = true -> g_validate cfg = true -> srcSize < M32 -> stored_rule cfg pos (r_seqs br)).
+Proof. exact producer_block_at_store_sound. Qed.
+Print Assumptions C17_producer_block_at_store_sound.
+
+Theorem C17_producer_block_at_memory_safe : forall cfg ers fallback buf nb capacity srcSize rep pos,
+  g_fixed cfg = true -> g_validate cfg = true -> g_wlog cfg <= 31 -> pos + srcSize + g_dict cfg + 3 < M32 ->
+  (N.to_nat nb <= length buf)%nat \/ capacity < nb ->
+  forall site, producer_block_at cfg ers fallback buf nb capacity srcSize rep pos <> PRoob site.
+Proof. exact producer_block_at_memory_safe. Qed.
+Print Assumptions C17_producer_block_at_memory_safe.
+
+(* position-correct variant, validation on: an accepted frame obeys the documented rule block after block, for every list of
+   producer answers, every repcode history and every list of commit decisions (same conclusion as C17_validation_complete,
+   hence R's strict window rule by C17_validate_rule_is_format_rule) *)
+Theorem C17_producer_frame_rule : forall cfg ers fb calls rep pos dec blks,
+  g_fixed cfg = true -> g_validate cfg = true -> calls_small calls ->
+  producer_frame true cfg ers fb calls rep pos dec = Done blks -> blocks_rule cfg pos blks.
+Proof. exact producer_frame_rule. Qed.
+Print Assumptions C17_producer_frame_rule.
+
+(* both variants, validation on or off: the codes of every block stay in lock-step with the decoder's repeat-offset rule
+   across the frame for every list of commit decisions; the stored lengths fill every block; one block per call *)
+Theorem C17_producer_frame_lockstep : forall atpos cfg ers fb calls rep pos dec blks,
+  calls_off_ok calls -> rep_ok rep ->
+  producer_frame atpos cfg ers fb calls rep pos dec = Done blks ->
+  blocks_lockstep rep dec blks /\ Forall (fun b => stored_sum32 (b_seqs b) + b_lastLL b = b_size b) blks /\
+  map b_size blks = map pc_size calls.
+Proof. exact producer_frame_lockstep. Qed.
+Print Assumptions C17_producer_frame_lockstep.
+
+(* whatever the producer writes or returns in any call: no out-of-bounds access, with the frame position ... *)
+Theorem C17_producer_frame_memory_safe : forall cfg ers fb calls rep pos dec,
+  g_fixed cfg = true -> g_validate cfg = true -> g_wlog cfg <= 31 -> pos + calls_total calls + g_dict cfg + 3 < M32 ->
+  Forall (fun c => (N.to_nat (pc_nb c) <= length (pc_buf c))%nat \/ pc_cap c < pc_nb c) calls ->
+  not_oob (producer_frame true cfg ers fb calls rep pos dec).
+Proof. exact producer_frame_memory_safe. Qed.
+Print Assumptions C17_producer_frame_memory_safe.
+(* ... and for the code as it is (the finding below is about the rule, not about memory safety) *)
+Theorem C17_producer_frame_memory_safe_as_is : forall cfg ers fb calls rep pos dec,
+  g_fixed cfg = true -> g_validate cfg = true -> g_wlog cfg <= 31 ->
+  Forall (fun c => pc_size c + g_dict cfg + 3 < M32) calls ->
+  Forall (fun c => (N.to_nat (pc_nb c) <= length (pc_buf c))%nat \/ pc_cap c < pc_nb c) calls ->
+  not_oob (producer_frame false cfg ers fb calls rep pos dec).
+Proof. exact producer_frame_memory_safe_as_is. Qed.
+Print Assumptions C17_producer_frame_memory_safe_as_is.
+
+(* the hypotheses are satisfiable: the two-block frame of the witness below is accepted at the frame position *)
+Example C17_producer_frame_example :
+  exists blks, producer_frame true (wcfg 17 0) true false w1_calls (1, 4, 8) 0 [] = Done blks /\ calls_small w1_calls /\ length blks = 2%nat.
+Proof. eexists. split; [vm_compute; reflexivity|]. split; [repeat constructor|reflexivity]. Qed.
+
+(* finding C17-producer-validation-position-restarts-per-block, machine-checked on the model (closed terms):
+   (1) the code as it is refuses {off 1024, ll 0, ml 1024} as second block of a frame (a valid parse whenever block 1 repeats
+       block 0; the bound at frame position 1024 is 1024) - the position-correct variant accepts it and the rule holds;
+   (2) with a dictionary it stores {off 2500, ll 1000, ml 24} in the sixth block of a frame with a 1 KiB window (bound at
+       position 6120: 1024) and the stored frame violates blocks_rule - the position-correct variant refuses it *)
+Theorem C17_producer_position_false_rejection :
+  producer_frame false (wcfg 17 0) true false w1_calls (1, 4, 8) 0 [] = Invalid 1 /\
+  (exists blks, producer_frame true (wcfg 17 0) true false w1_calls (1, 4, 8) 0 [] = Done blks /\ blocks_rule (wcfg 17 0) 0 blks) /\
+  offset_bound (wcfg 17 0) 1024 = 1024.
+Proof. exact producer_position_false_rejection. Qed.
+Print Assumptions C17_producer_position_false_rejection.
+Theorem C17_producer_position_false_acceptance :
+  (exists blks, producer_frame false (wcfg 10 2000) true false w2_calls (1, 4, 8) 0 [] = Done blks /\ ~ blocks_rule (wcfg 10 2000) 0 blks) /\
+  producer_frame true (wcfg 10 2000) true false w2_calls (1, 4, 8) 0 [] = Invalid 1 /\
+  offset_bound (wcfg 10 2000) 6120 = 1024.
+Proof. exact producer_position_false_acceptance. Qed.
+Print Assumptions C17_producer_position_false_acceptance.
+
+(* finding C17-validation-counts-dictionary-header: the copiers hand ZSTD_validateSequence the size of the whole dictionary
+   buffer.  For every configuration, content size, header size >= 1 and position inside the first window, the offset
+   position + content + header (one that reaches `header` bytes before the first byte of history) is accepted with the
+   buffer size and refused with the content size. *)
+Theorem C17_dict_header_accepts_beyond_content : forall cfg content header pos ml,
+  pos <= pow2 (g_wlog cfg) -> 1 <= header -> match_len_lower cfg <= ml ->
+  validate_fixed (with_dict cfg (content + header)) (pos + content + header) ml pos = true /\
+  validate_fixed (with_dict cfg content) (pos + content + header) ml pos = false.
+Proof. exact dict_header_accepts_beyond_content. Qed.
+Print Assumptions C17_dict_header_accepts_beyond_content.
